@@ -280,6 +280,18 @@ impl RefCache {
         Dfa::letters(k, 1 << r).minimize()
     }
 
+    /// region mask if p denotes a set of one-character strings given by an atom
+    fn letter_mask(&self, p: &P) -> Option<u64> {
+        let k = self.u.k();
+        match p {
+            P::AllChar => Some((1u64 << k) - 1),
+            P::Rng(l, h) => Some((*l..=*h).fold(0u64, |m, x| m | 1 << x)),
+            P::Ch(c) => Some(1 << self.u.region_of(*c)),
+            P::Cs(l, h) => self.u.aligned_mask(*l, *h),
+            _ => None,
+        }
+    }
+
     /// the canonical minimal complete DFA of the language SMT-LIB assigns to the construction
     pub fn dfa(&mut self, p: &P) -> Rc<Dfa> {
         if let Some(d) = self.memo.get(p) {
@@ -334,14 +346,17 @@ impl RefCache {
             P::Plus(a) => self.dfa(a).plus(),
             P::Opt(a) => Dfa::eps(k).union(&self.dfa(a)),
             P::Pow(a, n) => self.dfa(a).power(*n),
-            P::Loop(a, i, j) => {
-                if i <= j {
-                    self.dfa(a).repeat(*i, Some(*j))
-                } else {
+            P::Loop(a, i, j) | P::MkLoop(a, i, j) => {
+                if i > j {
                     Dfa::empty(k)
+                } else if let (true, Some(m)) = (*j > 8, self.letter_mask(a)) {
+                    // a large loop over a set of single characters is a counter: built directly (the generic
+                    // construction is quadratic in the bound)
+                    Dfa::counter(k, m, *i, *j).minimize()
+                } else {
+                    self.dfa(a).repeat(*i, Some(*j))
                 }
             }
-            P::MkLoop(a, i, j) => self.dfa(a).repeat(*i, Some(*j)),
             P::LoopInf(a, i) => self.dfa(a).repeat(*i, None),
             P::Concat(a, b) => {
                 let (x, y) = (self.dfa(a), self.dfa(b));
